@@ -92,12 +92,19 @@ func (t *Collection) closeCollection() { // Just "close" is a keyword.
 	t.rootLock.Lock()
 	r := t.root
 	t.root = nil
-	// Only the last holder of the newest version may recycle its whole tree;
-	// otherwise other handles or later versions still share these nodes.
-	sole := r != nil && r.refs == 1 && r.chainedRootNodeLoc == nil
+	// Only when this handle is the last holder of its version, and of every
+	// later version chained behind it, may the nodes that were never replaced
+	// be recycled; they all hang off the newest of those versions.  Otherwise
+	// other handles or later versions still share these nodes.
+	last := r
+	sole := r != nil && r.refs == 1
+	for sole && last.chainedRootNodeLoc != nil {
+		last = last.chainedRootNodeLoc
+		sole = last.refs == 1
+	}
 	t.rootLock.Unlock()
 	if sole {
-		t.reclaimMarkUpdate(r.root, nil, &r.reclaimMark)
+		t.reclaimMarkUpdate(last.root, nil, &last.reclaimMark)
 	}
 	if r != nil {
 		t.rootDecRef(r)
